@@ -1,4 +1,5 @@
 import TdModel.Model.C09Wire
+import TdModel.Model.C10Prog
 import TdModel.Prim.SHA1
 open TdModel TdModel.C09
 
@@ -12,7 +13,8 @@ def client (ws : List String) : Option String :=
     | some (isPrime, factor), some cfg, some tape, some ms =>
       let P := symXP Prim.sha1 isPrime factor
       let (c0, m0) := cinit (Ct := Sym) tape
-      let (c, outs) := crun P cfg tape c0 ms
+      -- the client as interpreted from the regenerated statement list (= `crun`, Props/C10 `program_run_is_model`)
+      let (c, outs) := crunI P cfg tape c0 ms
       some s!"{showCState Prim.sha1 c} || {showTranscript (m0 :: outs)}"
     | _, _, _, _ => none
 
